@@ -786,6 +786,18 @@ class C18(Prop):
                 lines += call('b', gk, nn)
             lines += ['snap b', 'check wf b']
             scripts.append(lines)
+        # a target in which a user name has the shape of a generated one and lies AHEAD of the names
+        # handed out so far (it got there by renaming): the generator's fresh names must step around it
+        for i in range(10 if tier == 'quick' else 150):
+            d = rnd.randint(0, 4)
+            lines = ['new a', 'add a [ ] - -', 'add a [ ] - -', 'add a [ ] sp { sw i7 }', 'add a [ s0d0 sp ] se -',
+                     'relabel1 a sp s0d%d' % (2 + d)]
+            for j in range(rnd.randint(1, 2)):
+                gk = rnd.choice(['simplex', 'void', 'skeleton', 'ring'])
+                nn = rnd.randint(3, 5) if gk == 'ring' else rnd.randint(1, 3)
+                lines += call('a', gk, nn)
+            lines += ['snap a', 'check wf a']
+            scripts.append(lines)
         # calls without attributes, the earlier top simplex annotated in between
         for k in range(0, 4):
             lines = call('a', 'simplex', k, id='sT1') + ['setattr a sT1 scolour i1'] + call('a', 'simplex', rnd.randint(0, 3), id='sT2') + \
